@@ -8,7 +8,7 @@ RULE = ("K: fdtdx.apply_params on scenes built with fdtdx.place_objects: volume 
         "dispersive) partly under the devices; 1-2 devices (two-device scenes always of MIXED kinds — etched+discrete, continuous+etched, continuous+discrete … — over a full background slab when one is etched, with histories of 2-3 sets applied to the returned arrays; the second device sometimes overlaps the first) of kind "
         "continuous (2 materials, no transform or StandardToCustomRange), etched (1 material, use_etching) or discrete "
         "(2-4 materials, ClosestIndex; BINARY and DISCRETE), design voxels of 1-2 cells per axis, Lorentz/Drude materials "
-        "(isotropic and per-axis poles) in a fraction of the scenes so that the dispersive coefficient arrays exist; "
+        "(isotropic and per-axis poles) and CCPR critical-point poles with non-zero dE/dt coupling (so that dispersive_c4 is allocated; always present in two fixed discrete/continuous scenes) in a fraction of the scenes; "
         "parameter histories of 1-3 sets per device (continuous: [0,1] incl. exact 0 and 1; discrete: latent values incl. "
         "half-integers and out-of-range). The final inv_permittivities and dispersive_c1..c4 after the whole history are "
         "compared with the model (tol 1e-12 for 1/3 components, 1e-9 for full tensors whose inverse the implementation "
@@ -49,7 +49,9 @@ def build_material(m):
     for p in m.get("poles", []):
         def ax(v):
             return tuple(v) if isinstance(v, (list, tuple)) else v
-        if p["kind"] == "lorentz":
+        if p["kind"] == "ccpr":      # critical-point pole: non-zero dE/dt coupling, allocates dispersive_c4
+            poles.append(fx.CCPRPole.from_critical_point(amplitude=p["A"], phase=p["phi"], resonance_frequency=p["w0"], damping=p["g"]))
+        elif p["kind"] == "lorentz":
             poles.append(fx.LorentzPole(resonance_frequency=ax(p["w0"]), damping=ax(p["g"]), delta_epsilon=ax(p["de"])))
         else:
             poles.append(fx.DrudePole(plasma_frequency=ax(p["wp"]), damping=ax(p["g"])))
@@ -349,7 +351,10 @@ def gen_mat(rng, tier, dispersive, lo=1.0, hi=12.0):
             per_axis = dispersive == "axis" and rng.chance(0.6)
             def val(a, b):
                 return [round(rng.uniform(a, b), 4) for _ in range(3)] if per_axis else round(rng.uniform(a, b), 4)
-            if rng.chance(0.6):
+            if dispersive == "ccpr" or (not per_axis and rng.chance(0.25)):
+                poles.append({"kind": "ccpr", "A": round(rng.uniform(0.3, 1.5), 4), "phi": round(rng.uniform(-1.2, -0.3), 4),
+                              "w0": round(rng.uniform(2e15, 5e15), -11), "g": round(rng.uniform(3e14, 9e14), -10)})
+            elif rng.chance(0.6):
                 poles.append({"kind": "lorentz", "w0": val(1e15, 5e15), "g": val(1e13, 3e14), "de": val(0.2, 2.0)})
             else:
                 poles.append({"kind": "drude", "wp": val(1e15, 4e15), "g": val(1e13, 3e14)})
@@ -359,7 +364,7 @@ def gen_mat(rng, tier, dispersive, lo=1.0, hi=12.0):
 
 def gen_case(rng, i, big=False):
     tier = ["iso", "iso", "diag", "iso", "full", "diag"][i % 6]
-    dispersive = [None, None, "iso", None, "axis", "iso"][(i // 2) % 6] if tier != "full" else None
+    dispersive = [None, "ccpr", "iso", None, "axis", "iso"][(i // 2) % 6] if tier != "full" else None
     # a small pool of volume shapes keeps XLA's per-shape compilation of the eager operations affordable;
     # positions, kinds, materials, voxel sizes and values are random.  thorough: free shapes as well.
     pool = [[6, 5, 4], [4, 3, 5], [3, 7, 4], [5, 4, 3]]
@@ -519,6 +524,23 @@ def run(ctx):
          "hist": [{"dev0": [0.2, 0.8, 0.5, 1.3], "dev1": [0.8, 0.6, 1.0, 0.3]},
                   {"dev0": [0.9, 0.1, 0.7, 0.4], "dev1": [0.2, 0.9, 0.5, 0.7]}]},
     ]
+    cp1 = {"kind": "ccpr", "A": 0.9, "phi": -0.8, "w0": 4.0e15, "g": 6e14}
+    cp2 = {"kind": "ccpr", "A": 0.5, "phi": -0.5, "w0": 2.5e15, "g": 4e14}
+    fixed += [
+        # CCPR (critical-point) materials: dispersive_c4 exists. discrete device, 3 materials, history of 2
+        {"N": [4, 3, 5], "bg": {"mat": {"eps": 3.0, "poles": [cp2]}, "lo": 0, "thick": 3}, "jit": False,
+         "devs": [{"name": "dev0", "lo": [1, 0, 1], "shape": [2, 2, 2], "vox": [1, 2, 1], "kind": "disc",
+                   "mats": [{"eps": 1.0}, {"eps": 2.5, "poles": [cp1]}, {"eps": 6.0, "poles": [cp2, {"kind": "drude", "wp": 2e15, "g": 1e14}]}]}],
+         "hist": [{"dev0": [0.2, 1.4, 2.6, 0.9]}, {"dev0": [2.0, 0.0, 1.0, 1.6]}]},
+        # … continuous device between a plain and a CCPR material, plus a discrete CCPR device next to it
+        {"N": [6, 5, 4], "bg": None, "jit": False,
+         "devs": [{"name": "dev0", "lo": [0, 1, 0], "shape": [2, 2, 2], "vox": [2, 1, 1], "kind": "cont",
+                   "mats": [{"eps": 2.0}, {"eps": 5.0, "poles": [cp1, {"kind": "lorentz", "w0": 3e15, "g": 1e14, "de": 0.7}]}]},
+                  {"name": "dev1", "lo": [3, 0, 1], "shape": [2, 2, 2], "vox": [1, 1, 2], "kind": "disc",
+                   "mats": [{"eps": 1.5, "poles": [cp2]}, {"eps": 4.0, "poles": [cp1]}]}],
+         "hist": [{"dev0": [0.0, 1.0, 0.25, 0.5], "dev1": [0.1, 0.9, 0.6, 0.4]},
+                  {"dev0": [0.7, 0.3, 1.0, 0.0], "dev1": [1.0, 0.0, 0.2, 0.8]}]},
+    ]
     lor = {"kind": "lorentz", "w0": 3e15, "g": 1e14, "de": 1.5}
     fixed += [
         # plain (non-dispersive) discrete device partly over a dispersive slab: the slab's coefficients must not survive
@@ -546,7 +568,7 @@ def run(ctx):
             nontriv = (ci, tier, kinds, ov, len(case["hist"]), Q > 0)
         ctx.case(sample={"op": "apply", "case": case, "inv_after": final["inv"].ravel()[:6].tolist()} if ci in (0, 3) else None,
                  nontrivial=nontriv, tier=tier, devices=len(kinds), history=len(case["hist"]), overlap=ov,
-                 dispersive_arrays=Q > 0, backup=A0["init"] is not None, background=case["bg"] is not None,
+                 dispersive_arrays=Q > 0, c4_allocated=A0["c"][3] is not None, backup=A0["init"] is not None, background=case["bg"] is not None,
                  jit=case.get("jit", False), **{"kind_" + k: True for k in set(kinds)})
         ctx.impl_property_evals += 1
         if d:
